@@ -109,6 +109,11 @@ def _run_case_body(ctx, L, i, scope):
         doc = fill_probe_doc1(i)
         label = 'fill'
         ctx.count('fill_probes')
+    elif i % 5 == 3:
+        from .C02 import delimiter_stress_doc
+        doc = delimiter_stress_doc(rng)
+        label = 'stress'
+        ctx.count('delimiter_stress_documents')
     else:
         doc = B.writer_doc(rng, ascii_only=True, big=False)
         if i % 4 == 0:
@@ -188,7 +193,8 @@ def run(env):
                  'inexpressible element) written with cif_version = 1; distinct by per-index PRNG; non-trivial = the '
                  'outcome class (round trip / DISALLOWED_VALUE / DISALLOWED_CHAR) agreed with the independent '
                  'expressibility rule and, on success, all output checks passed',
-            samples=res.samples, systematic_line_fill_probes=res.count('fill_probes'), round_trips=res.count('round_trips_ok'), refused_value=res.count('refused_value'),
+            samples=res.samples, systematic_line_fill_probes=res.count('fill_probes'),
+            delimiter_stress_documents=res.count('delimiter_stress_documents'), round_trips=res.count('round_trips_ok'), refused_value=res.count('refused_value'),
             refused_char=res.count('refused_char'), poisoned_but_round_tripped=res.count('poisoned_but_round_tripped'),
             outcomes=sorted(res.sets.get('outcomes', ())), crashes=res.crashes),
         violations=res.violations, inconclusive=inconclusive,
